@@ -69,6 +69,13 @@ def generate(rng, idx, tier, variant):
             start, end = rng.choice([('?multi', None), (None, '?multi')])
         else:
             start = end = rng.randint(lo, max(lo, hi)) if hi >= lo else None
+        if n and (lags or leads) and not dup and not npdup and rng.random() < 0.08:
+            # an explicit start inside the lag margin / end inside the lead margin: solve() must refuse those periods
+            # exactly as the single-period solver does (not quietly move the range)
+            if lags and (not leads or rng.random() < 0.5):
+                start = rng.randrange(0, lags)
+            else:
+                end = rng.randint(n - leads, n - 1)
         if dup and n:
             start = rng.choice([None, 0])
             end = rng.choice([None, n - 1])
@@ -401,7 +408,7 @@ def _loop(m, positions, opts, intr, how, spec, span, judge=None):
                     'opts': opts, 'n': len(span), 't': t, 'endo': endo, 'check': check, 'exo': exo, 'snap': snap,
                     'post': ref_solver.snapshot(m), 'log': ctl.log[n0:], 'raised': ctl.raised[nr0:],
                     'outcome': {'kind': 'return', 'value': o['value']} if o['kind'] == 'return' else {'kind': 'raise', 'exc': o['exc']},
-                    'scripted': spec['kind'] == 'scripted', 'feasible': True, 'np_err': ctx.np_err,
+                    'scripted': spec['kind'] == 'scripted', 'feasible': spec['lags'] <= t <= len(span) - 1 - spec['leads'], 'np_err': ctx.np_err,
                 }
                 ref_solver.judge_single(call, lambda sig, ok, detail=None: ctx.check('C05', 'period-policy/' + sig, ok, detail), None)
             if o['kind'] != 'return':
